@@ -2180,13 +2180,14 @@ class UndoSearch:
                 e = loads(self.file.read(el))
             except:  # noqa: E722 do not use bare 'except'
                 pass
-        d = {'id': encodebytes(tid).rstrip(),
-             'time': TimeStamp(tid).timeTime(),
-             'user_name': u,
-             'size': tl,
-             'description': d}
-        d.update(e)
-        return d
+        # As in history(), extension keys must not replace the entries
+        # computed here (an 'id' taken from the extension cannot be undone).
+        e.update({'id': encodebytes(tid).rstrip(),
+                  'time': TimeStamp(tid).timeTime(),
+                  'user_name': u,
+                  'size': tl,
+                  'description': d})
+        return e
 
 
 class FilePool:
